@@ -36,6 +36,11 @@ class EU(Exception):
     pass
 
 
+class OverSend(BaseException):
+    """raised by the scripted transport when the client sends more often than n+1 times: ends the execution at once, so that a
+    retry loop that is too generous shows up as a violation instead of blowing up the choice tree"""
+
+
 CODESETS = {'none': None, 'empty': set(), 'one': {C1}, 'two': {C1, C2}}
 EXCSETS = {'none': None, 'empty': set(), 'one': {E1}, 'two': {E1, E2}, 'wide': {Exception}}
 
@@ -208,15 +213,22 @@ def execute(cfg, env, horizon=12):
     -> observation dict
     """
     menu = outcome_menu(cfg)
-    script = []          # (name, raised exception | body)
+    state = dict(script=[], tag=0)          # script: (name, raised exception | body) of the request being made
     sleeplog.take()
+    rs_ = cfg.get('request_strategy', 'unset')
+    eff = cfg.get('client_strategy') if (isinstance(rs_, str) and rs_ == 'unset') else rs_
+    max_sends = (eff['attempts'] if eff else 0) + 1
 
     def responder(text, is_notif, kwargs):
+        script = state['script']
         k = len(script)
+        if k >= max_sends:
+            script.append(('HORIZON', None))
+            raise OverSend('send %d with a strategy of %d attempts' % (k + 1, max_sends - 1))
         if k >= horizon:
             script.append(('HORIZON', None))
             raise EU('horizon')
-        name = menu[env.choose(('attempt', k), len(menu))]
+        name = menu[env.choose(('attempt', state['tag'], k), len(menu))]
         b = body_for(cfg, name, k)
         script.append((name, b))
         if isinstance(b, BaseException):
@@ -230,73 +242,82 @@ def execute(cfg, env, horizon=12):
     if cfg.get('client_strategy') is not None:
         kw['retry_strategy'] = make_strategy(cfg['client_strategy'])
     client = make_client(cfg['kind'], responder, tracers=tracers, strict=cfg.get('strict', True), **kw)
-    ctx = SimpleNamespace(tag='supplied') if cfg.get('ctx') == 'supplied' else None
-    rs = cfg.get('request_strategy', 'unset')
-    send_kw = {}
-    if not (isinstance(rs, str) and rs == 'unset'):
-        send_kw['_retry_strategy'] = make_strategy(rs)
     rk = cfg['request']
-    via = cfg.get('via', 'call')
-    if send_kw:
-        via = 'send'
-    the_request = None
+    # one long-lived client (and, for per-request strategies, one long-lived strategy object) makes `repeat` requests in a row
+    rs = cfg.get('request_strategy', 'unset')
+    shared_kw = {}
+    if not (isinstance(rs, str) and rs == 'unset'):
+        shared_kw['_retry_strategy'] = make_strategy(rs)
+    runs = []
+    for rep in range(cfg.get('repeat', 1)):
+        state['script'] = []
+        state['tag'] = rep
+        n_sent, n_ev = len(client.sent), len(tlog)
+        ctx = SimpleNamespace(tag='supplied') if cfg.get('ctx') == 'supplied' else None
+        send_kw = dict(shared_kw)
+        via = cfg.get('via', 'call')
+        if send_kw:
+            via = 'send'
+        box = dict(request=None)
 
-    def thunk():
-        nonlocal the_request
-        if rk == 'single':
-            if via == 'dunder':
-                return client('m', 1, _trace_ctx=ctx)
-            if via == 'proxy':
-                return client.proxy.m(1, _trace_ctx=ctx)
+        def thunk():
+            if rk == 'single':
+                if via == 'dunder':
+                    return client('m', 1, _trace_ctx=ctx)
+                if via == 'proxy':
+                    return client.proxy.m(1, _trace_ctx=ctx)
+                if via == 'call':
+                    return client.call('m', 1, _trace_ctx=ctx)
+                box['request'] = Request('m', [1], id=1)
+                return client.send(box['request'], _trace_ctx=ctx, **send_kw)
+            if rk == 'notification':
+                if via == 'call':
+                    return client.notify('m', 1, _trace_ctx=ctx)
+                box['request'] = Request('m', [1])
+                return client.send(box['request'], _trace_ctx=ctx, **send_kw)
+            b = client.batch
+            if rk == 'batch':
+                if via == 'proxy':
+                    return b.proxy.a(1).b(2).call(_trace_ctx=ctx)
+                if via == 'dunder':
+                    return b('a', 1)('b', 2).call(_trace_ctx=ctx)
+                if via == 'call':
+                    return b.add('a', 1).add('b', 2).call(_trace_ctx=ctx)
+                box['request'] = BatchRequest(Request('a', [1], id=1), Request('b', [2], id=2))
+                return b.send(box['request'], _trace_ctx=ctx, **send_kw)
             if via == 'call':
-                return client.call('m', 1, _trace_ctx=ctx)
-            the_request = Request('m', [1], id=1)
-            return client.send(the_request, _trace_ctx=ctx, **send_kw)
-        if rk == 'notification':
-            if via == 'call':
-                return client.notify('m', 1, _trace_ctx=ctx)
-            the_request = Request('m', [1])
-            return client.send(the_request, _trace_ctx=ctx, **send_kw)
-        b = client.batch
-        if rk == 'batch':
-            if via == 'proxy':
-                return b.proxy.a(1).b(2).call(_trace_ctx=ctx)
-            if via == 'dunder':
-                return b('a', 1)('b', 2).call(_trace_ctx=ctx)
-            if via == 'call':
-                return b.add('a', 1).add('b', 2).call(_trace_ctx=ctx)
-            the_request = BatchRequest(Request('a', [1], id=1), Request('b', [2], id=2))
-            return b.send(the_request, _trace_ctx=ctx, **send_kw)
-        if via == 'call':
-            return b.notify('a', 1).notify('b', 2).call(_trace_ctx=ctx)
-        the_request = BatchRequest(Request('a', [1]), Request('b', [2]))
-        return b.send(the_request, _trace_ctx=ctx, **send_kw)
+                return b.notify('a', 1).notify('b', 2).call(_trace_ctx=ctx)
+            box['request'] = BatchRequest(Request('a', [1]), Request('b', [2]))
+            return b.send(box['request'], _trace_ctx=ctx, **send_kw)
 
-    loop = None
-    try:
-        if cfg.get('in_except'):
-            # the call is made while the caller is handling another, unrelated exception
-            try:
-                raise KeyError('unrelated outer exception')
-            except KeyError:
+        loop = None
+        try:
+            if cfg.get('in_except'):
+                # the call is made while the caller is handling another, unrelated exception
+                try:
+                    raise KeyError('unrelated outer exception')
+                except KeyError:
+                    r = thunk()
+                    if cfg['kind'] == 'async':
+                        loop = VLoop()
+                        r = loop.run(r)
+            else:
                 r = thunk()
                 if cfg['kind'] == 'async':
                     loop = VLoop()
                     r = loop.run(r)
-        else:
-            r = thunk()
-            if cfg['kind'] == 'async':
-                loop = VLoop()
-                r = loop.run(r)
-        outcome = ('ok', r)
-    except BaseException as e:   # noqa
-        outcome = ('exc', e)
-    finally:
-        if loop is not None:
-            loop.close()
-    sleeps = sleeplog.take()
-    return dict(script=script, sends=list(client.sent), sleeps=sleeps, outcome=outcome, events=tlog, ctx=ctx,
-                request=the_request, loop_sleeps=(loop.sleeps if loop else None), menu=menu)
+            outcome = ('ok', r)
+        except BaseException as e:   # noqa
+            outcome = ('exc', e)
+        finally:
+            if loop is not None:
+                loop.close()
+        sleeps = sleeplog.take()
+        runs.append(dict(script=state['script'], sends=list(client.sent[n_sent:]), sleeps=sleeps, outcome=outcome, events=tlog[n_ev:], ctx=ctx,
+                         request=box['request'], loop_sleeps=(loop.sleeps if loop else None), menu=menu))
+    obs = runs[0]
+    obs['later'] = runs[1:]
+    return obs
 
 
 def summarize_value(v):
@@ -331,5 +352,6 @@ def summarize(obs):
         else:
             p = (type(payload).__name__, str(payload)[:60])
         ev.append((idx, what, ctxs[id(ctx)], p))
+    later = tuple(summarize(o) for o in obs.get('later', ()))
     return (tuple(n for n, _ in obs['script']), tuple((t, n) for t, n, _ in obs['sends']),
-            tuple(d for _, d in obs['sleeps']), out, tuple(ev))
+            tuple(d for _, d in obs['sleeps']), out, tuple(ev)) + ((later,) if later else ())
